@@ -1,6 +1,8 @@
 #!/bin/sh
 # try_seed.sh <patch> <ID> [extra check args]: apply patch to /repo, run the check, undo. Prints exit code.
 P=$1; ID=$2; shift 2
+# exclusive use of /repo: long-running checks (tools/sweep.sh) hold the lock shared
+exec 9>/verif/.work/repo.lock; flock -x 9
 cd /repo || exit 2
 git diff --quiet || { echo "/repo dirty"; exit 2; }
 git apply "$P" || { echo "PATCH DOES NOT APPLY"; exit 2; }
